@@ -131,7 +131,7 @@ func (reader *SSTableReader) Scan() (SSTableIteratorI, error) {
 
 		err = dataReader.Open()
 		if err != nil {
-			return nil, fmt.Errorf("error in sstable '%s' while opening a scanner: %w", reader.opts.basePath, err)
+			return nil, errors.Join(fmt.Errorf("error in sstable '%s' while opening a scanner: %w", reader.opts.basePath, err), dataReader.Close())
 		}
 
 		reader.miscClosers = append(reader.miscClosers, dataReader)
@@ -151,7 +151,7 @@ func (reader *SSTableReader) Scan() (SSTableIteratorI, error) {
 		}
 		err = dataReader.Open()
 		if err != nil {
-			return nil, fmt.Errorf("error in sstable '%s' while opening a scanner: %w", reader.opts.basePath, err)
+			return nil, errors.Join(fmt.Errorf("error in sstable '%s' while opening a scanner: %w", reader.opts.basePath, err), dataReader.Close())
 		}
 
 		reader.miscClosers = append(reader.miscClosers, dataReader)
@@ -307,12 +307,12 @@ func NewSSTableReader(readerOptions ...ReadOption) (SSTableReaderI, error) {
 
 	err = index.Open()
 	if err != nil {
-		return nil, fmt.Errorf("error while opening index of sstable in '%s': %w", opts.basePath, err)
+		return nil, errors.Join(fmt.Errorf("error while opening index of sstable in '%s': %w", opts.basePath, err), index.Close())
 	}
 
 	filter, err := readFilterIfExists(filepath.Join(opts.basePath, BloomFileName))
 	if err != nil {
-		return nil, fmt.Errorf("error while reading filter of sstable in '%s': %w", opts.basePath, err)
+		return nil, errors.Join(fmt.Errorf("error while reading filter of sstable in '%s': %w", opts.basePath, err), index.Close())
 	}
 
 	reader := &SSTableReader{opts: opts, bloomFilter: filter, index: index, metaData: metaData}
@@ -320,24 +320,24 @@ func NewSSTableReader(readerOptions ...ReadOption) (SSTableReaderI, error) {
 	if metaData.Version == 0 {
 		v0DataReader, err := rProto.NewMMapProtoReaderWithPath(filepath.Join(opts.basePath, DataFileName))
 		if err != nil {
-			return nil, fmt.Errorf("error while creating proto data reader of sstable in '%s': %w", opts.basePath, err)
+			return nil, errors.Join(fmt.Errorf("error while creating proto data reader of sstable in '%s': %w", opts.basePath, err), reader.Close())
 		}
 
 		err = v0DataReader.Open()
 		if err != nil {
-			return nil, fmt.Errorf("error while opening proto data reader of sstable in '%s': %w", opts.basePath, err)
+			return nil, errors.Join(fmt.Errorf("error while opening proto data reader of sstable in '%s': %w", opts.basePath, err), v0DataReader.Close(), reader.Close())
 		}
 
 		reader.v0DataReader = v0DataReader
 	} else {
 		dataReader, err := recordio.NewMemoryMappedReaderWithPath(filepath.Join(opts.basePath, DataFileName))
 		if err != nil {
-			return nil, fmt.Errorf("error while creating data reader of sstable in '%s': %w", opts.basePath, err)
+			return nil, errors.Join(fmt.Errorf("error while creating data reader of sstable in '%s': %w", opts.basePath, err), reader.Close())
 		}
 
 		err = dataReader.Open()
 		if err != nil {
-			return nil, fmt.Errorf("error while opening data reader of sstable in '%s': %w", opts.basePath, err)
+			return nil, errors.Join(fmt.Errorf("error while opening data reader of sstable in '%s': %w", opts.basePath, err), dataReader.Close(), reader.Close())
 		}
 
 		reader.dataReader = dataReader
@@ -345,13 +345,8 @@ func NewSSTableReader(readerOptions ...ReadOption) (SSTableReaderI, error) {
 
 	err = reader.validateDataFile()
 	if err != nil {
-		if reader.v0DataReader != nil {
-			err = errors.Join(err, reader.v0DataReader.Close())
-		}
-		if reader.dataReader != nil {
-			err = errors.Join(err, reader.dataReader.Close())
-		}
-		return nil, err
+		// the table is not handed out: release the index and the data file
+		return nil, errors.Join(err, reader.Close())
 	}
 
 	return reader, nil
